@@ -1,1 +1,2 @@
 pub mod c20;
+pub mod c15;
